@@ -21,6 +21,7 @@ GFA1 = {
     "l12": ("L\tC\t+\tC\t-\t2M1I", ["sC"]),
     "l13": ("L\tA\t+\tC\t-\t2M1I", ["sA", "sC"]),                # a link whose CIGAR is not its own complement ...
     "l14": ("L\tC\t+\tA\t-\t1D2M", ["sA", "sC"]),                # ... and the same link in its complement form                   # hairpin whose CIGAR is not its own complement
+    "l15": ("L\tB\t-\tC\t-\t1S2M1N1M", ["sB", "sC"]),           # the GFA1-only operations S and N: rewritten (not only swapped) by the complement
     "c1": ("C\tA\t+\tC\t+\t1\t2M", ["sA", "sC"]),
     "c2": ("C\tB\t-\tC\t+\t0\t*\tID:Z:cn", ["sB", "sC"]),
     "p1": ("P\tp1\tA+,B+\t2M", ["l1"]),
